@@ -2,10 +2,15 @@ package props
 
 import (
 	"bytes"
+	"compress/flate"
 	"crypto"
 	"encoding/base64"
 	"fmt"
+	"html"
+	"io"
 	"math/rand/v2"
+	"net/url"
+	"regexp"
 	"time"
 
 	"github.com/beevik/etree"
@@ -17,7 +22,7 @@ import (
 
 func init() {
 	register(&Prop{ID: "C13", Run: runC13, MinNontrivial: 500,
-		Rule:        "cases = (key configuration: each of the 15 non-empty subsets of {enc field, enc setter, sign field, sign setter}, setter keys RSA or ECDSA and wrapped in recording spies) x (signature algorithm: unset or each of the 4 compatible ones) x (canonicaliser: unset or each of 6) x (message kind: AuthnRequest document/string, LogoutRequest, LogoutResponse, Sign* on the unsigned document) x configuration/argument strings drawn from the value classes; oracle = recipient: serialise, re-parse, Signature right after Issuer, declared algorithms == configured/default, digest recomputed with the configured canonicaliser object, embedded cert == expected == GetSigningCertBytes == metadata signing key, dsig validation trusting only the expected cert, SignatureValue verified with the expected public key, spy of the expected source signed and no other; expected source = sign setter > sign field > enc setter > enc field; non-trivial = a signed document was produced; distinct by parameter tuple; in a third of the cases the signed document is first passed through the other binding helpers; SigningContext().Prefix changed by the application in a fifth of the cases; SP clocks years outside the signing certificate's validity; class shared-keystore; refused setter calls before use",
+		Rule:        "cases = (key configuration: each of the 15 non-empty subsets of {enc field, enc setter, sign field, sign setter}, setter keys RSA or ECDSA and wrapped in recording spies) x (signature algorithm: unset or each of the 4 compatible ones) x (canonicaliser: unset or each of 6) x (message kind: AuthnRequest document/string, LogoutRequest, LogoutResponse, Sign* on the unsigned document) x configuration/argument strings drawn from the value classes; oracle = recipient: serialise, re-parse, Signature right after Issuer, declared algorithms == configured/default, digest recomputed with the configured canonicaliser object, embedded cert == expected == GetSigningCertBytes == metadata signing key, dsig validation trusting only the expected cert, SignatureValue verified with the expected public key, spy of the expected source signed and no other; expected source = sign setter > sign field > enc setter > enc field; non-trivial = a signed document was produced; distinct by parameter tuple; in a third of the cases the signed document is first passed through the other binding helpers; SigningContext().Prefix changed by the application in a fifth of the cases; SP clocks years outside the signing certificate's validity; class shared-keystore; refused setter calls before use; SignAuthnRequests off for half of the logout / Sign* cases; the message as it travels inside the redirect URL or the POST form rendered from the signed document (a quarter of the cases each)",
 		Assumptions: []string{"signature algorithms are restricted to those compatible with the key type (an incompatible setting silently falls back to the default)", "field key stores are RSA by type", "exclusive canonicalisers are configured without an InclusiveNamespaces prefix list (goxmldsig's signer never emits one)"}})
 }
 
@@ -70,6 +75,36 @@ var outKinds = []string{"authn-doc", "authn-string", "logoutreq", "logoutresp", 
 type OutArgs struct {
 	NameID, SessionIndex, Status, ReqID string
 	Reuse                               bool // pass the built document through the binding helpers before serialising it
+	// Via says how the message travels: "" the document's own serialisation, "url" inside the URL the HTTP-Redirect
+	// helper renders from the document (SAMLRequest, base64 + raw DEFLATE), "form" inside the HTTP-POST form
+	// (SAMLRequest / SAMLResponse field, base64). The recipient parses what arrives.
+	Via string
+}
+
+// messageInURL returns the SAMLRequest parameter of u, base64-decoded and inflated.
+func messageInURL(u string) (string, error) {
+	pu, err := url.Parse(u)
+	if err != nil {
+		return "", err
+	}
+	b, err := base64.StdEncoding.DecodeString(pu.Query().Get("SAMLRequest"))
+	if err != nil {
+		return "", err
+	}
+	out, err := io.ReadAll(flate.NewReader(bytes.NewReader(b)))
+	return string(out), err
+}
+
+var formFieldRe = regexp.MustCompile(`name="SAML(?:Request|Response)" value="([^"]*)"`)
+
+// messageInForm returns the SAMLRequest / SAMLResponse field of the HTML form, base64-decoded.
+func messageInForm(page []byte) (string, error) {
+	m := formFieldRe.FindSubmatch(page)
+	if m == nil {
+		return "", fmt.Errorf("no SAMLRequest / SAMLResponse field in the form")
+	}
+	b, err := base64.StdEncoding.DecodeString(html.UnescapeString(string(m[1])))
+	return string(b), err
 }
 
 // buildSigned produces the serialised signed message of the given kind.
@@ -130,6 +165,36 @@ func buildSigned(sp *saml2.SAMLServiceProvider, kind string, a OutArgs) (string,
 		default:
 			sp.BuildLogoutResponseBodyPostFromDocument("rs", doc)
 		}
+	}
+	switch a.Via {
+	case "url":
+		var u string
+		switch kind {
+		case "authn-doc", "sign-authn":
+			u, err = sp.BuildAuthURLFromDocument("", doc)
+		case "logoutreq", "sign-logoutreq":
+			u, err = sp.BuildLogoutURLRedirect("", doc)
+		default:
+			return doc.WriteToString() // the library renders no redirect URL for a LogoutResponse
+		}
+		if err != nil {
+			return doc.WriteToString() // this IdP endpoint does not parse as a URL: the route does not exist
+		}
+		return messageInURL(u)
+	case "form":
+		var page []byte
+		switch kind {
+		case "authn-doc", "sign-authn":
+			page, err = sp.BuildAuthBodyPostFromDocument("", doc)
+		case "logoutreq", "sign-logoutreq":
+			page, err = sp.BuildLogoutBodyPostFromDocument("", doc)
+		default:
+			page, err = sp.BuildLogoutResponseBodyPostFromDocument("", doc)
+		}
+		if err != nil {
+			return "", err
+		}
+		return messageInForm(page)
 	}
 	return doc.WriteToString()
 }
@@ -235,6 +300,11 @@ func runC13(c *mon.Ctx) {
 			sp.SetSPKeyStore(&saml2.KeyStore{Signer: nil, Cert: hsm.DER})
 		}
 		sp.SignAuthnRequests = true
+		if kind != "authn-doc" && kind != "authn-string" && r.IntN(2) == 0 {
+			// logout messages and the Sign* functions sign whether or not AuthnRequests are signed as a matter of course;
+			// the configured algorithm and canonicaliser are the SP's all the same
+			sp.SignAuthnRequests = false
+		}
 		sp.SignAuthnRequestsAlgorithm = alg.URI
 		sp.SignAuthnRequestsCanonicalizer = cn.Obj
 		o := &OutCfg{}
@@ -243,7 +313,8 @@ func runC13(c *mon.Ctx) {
 		}
 		args := OutArgs{NameID: o.draw(r, "user@example.org", false), SessionIndex: o.draw(r, "_sess1", false), Status: o.draw(r, saml2.StatusCodeSuccess, true), ReqID: o.draw(r, "_req1", true)}
 		args.Reuse = r.IntN(3) == 0
-		cs.Desc("keys=%s want=%s alg=%q canon=%s kind=%s classes=%v reuse=%v", kc, ksp.WantSign, alg.URI, cn.Name, kind, o.Classes, args.Reuse)
+		args.Via = pick(r, []string{"", "", "url", "form"})
+		cs.Desc("keys=%s want=%s alg=%q canon=%s kind=%s classes=%v reuse=%v via=%q", kc, ksp.WantSign, alg.URI, cn.Name, kind, o.Classes, args.Reuse, args.Via)
 		var xml string
 		var err error
 		if r.IntN(5) == 0 {
